@@ -529,6 +529,40 @@ def local_helpers(syn, fn, depth=2):
     return out
 
 
+def syn_owner(syn, f, depth=3):
+    """syntactic counterpart of owner_root: the qualified name of the function a site in `f` is attributed to - a private free
+    function that exactly one other function of its module calls (by bare name) belongs to that caller"""
+    cache = syn.__dict__.setdefault("_syn_owner", {})
+    q0 = f.get("qual")
+    if q0 in cache:
+        return cache[q0]
+    cur = f
+    for _ in range(depth):
+        if cur.get("impl_of") is not None or cur.get("vis", "") != "" or not cur.get("qual"):
+            break
+        callers = [g for g in syn.fns if g is not cur and g["mod"] == cur["mod"] and g.get("body") and
+                   any(n.get("k") == "call" and n["f"].get("k") == "path" and n["f"]["p"] == cur["name"] for n in walk(g["body"]))]
+        if len(callers) != 1:
+            break
+        cur = callers[0]
+    cache[q0] = cur.get("qual")
+    return cache[q0]
+
+
+def normalise_review(syn, table):
+    """{(fn qual, kind): (count, reason)} with the function attributed by syn_owner; entries that fall together add up"""
+    by_qual = {f.get("qual"): f for f in syn.fns if f.get("qual")}
+    out = {}
+    for (fn, kind), (cnt, why) in table.items():
+        f = by_qual.get(fn)
+        key = (syn_owner(syn, f) if f is not None else fn, kind)
+        if key in out:
+            out[key] = (out[key][0] + cnt, out[key][1] + "; " + why)
+        else:
+            out[key] = (cnt, why)
+    return out
+
+
 def option_match_as_iflet(m):
     """`match e { Some(p) => A, None | _ => B }` (either order) as the equivalent `if let Some(p) = e { A } else { B }` node; else None"""
     if not isinstance(m, dict) or m.get("k") != "match" or len(m.get("arms", [])) != 2 or any(a.get("guard") for a in m["arms"]):
